@@ -197,6 +197,16 @@ where
             );
         }
 
+        assert!(threads > 0, "threads must be at least 1");
+
+        // A circuit without output bit has no work item: only the zeroing of `out` remains.
+        if circuit.output_size() == 0 {
+            for out_i in out.iter_mut() {
+                out_i.data_mut().zero();
+            }
+            return;
+        }
+
         let max_state_size = circuit.max_state_size();
 
         let scratch_thread_size: usize = self.execute_bdd_circuit_tmp_bytes(&out[0], max_state_size, &inputs.get_bit(0));
